@@ -42,6 +42,9 @@ func (c Cache) Get(fn string, args []object.Object) (object.Object, []byte, bool
 }
 
 func (c Cache) Set(fn string, args []object.Object, result object.Object, output []byte) {
+	if c == nil { // a State without cache (macro bodies): nothing to remember; writing to a nil map panics.
+		return
+	}
 	if verifCacheOff() {
 		return
 	}
